@@ -940,7 +940,10 @@ func genWill(prop string) func(tier string, seed uint64, idx int) interface{} {
 					x.willN++
 					op.Will = &Will{Topic: "will/" + x.topic(), QoS: byte(r.Intn(3)), Retain: r.Bool(1, 4), Size: sz, Ver: x.willN}
 				}
-				end := r.Intn(8)
+				end := r.Intn(9)
+				if end == 8 {
+					end = 80 // a read error on the broker's side
+				}
 				if end == 7 && life != lives-1 {
 					end = 2 // only the last life is left open until the end
 				}
@@ -986,6 +989,8 @@ func genWill(prop string) func(tier string, seed uint64, idx int) interface{} {
 					cl.Ops = append(cl.Ops, Op{K: "sleep", D: op.KA*2000 + 1500})
 				case 6:
 					cl.Ops = append(cl.Ops, Op{K: "raw", Raw: x.garbage()}, Op{K: "waitdead"})
+				case 80:
+					cl.Ops = append(cl.Ops, Op{K: "ioerr"}, Op{K: "waitdead"})
 				default:
 					// left open: ended by the director at the very end
 				}
@@ -1458,7 +1463,7 @@ func (x *g) attacker(ai int, kind int) Client {
 		for i := r.Intn(6); i > 0; i-- {
 			cl.Ops = append(cl.Ops, Op{K: "ping", NoWait: r.Bool(1, 2)})
 		}
-		cl.Ops = append(cl.Ops, Op{K: []string{"close", "rst", "disc"}[r.Intn(3)]})
+		cl.Ops = append(cl.Ops, Op{K: []string{"close", "rst", "disc", "ioerr"}[r.Intn(4)]})
 	case 3: // a packet larger than the ring
 		cl.Ops = append(cl.Ops, valid)
 		n := x.sc.Knobs.BufSize + r.Intn(8000)
